@@ -11,7 +11,7 @@ import (
 	"golang.org/x/tools/go/ssa"
 )
 
-var reAnyEpoch = regexp.MustCompile(`@\d+`)
+var reAnyEpoch = regexp.MustCompile(`@\d+(~\d+)?`)
 
 func init() { register("C11", checkC11) }
 
@@ -60,7 +60,7 @@ func checkC11(w *World, r *Recorder) propInfo {
 	r.Floor("C11-Q2", 23)
 	r.Floor("C11-Q3", 23)
 	r.Floor("C11-Q4", 23)
-	r.Floor("C11-Q6", 3)
+	r.Floor("C11-Q6", 2)
 	r.Floor("C11-Q7", 1)
 	return info
 }
@@ -242,6 +242,9 @@ func c11ComponentsSetter(w *World, r *Recorder, t *types.Named, fn *ssa.Function
 				rrecv = avSubject(rargs[0])
 				rargs = rargs[1:]
 			}
+			if replace.Recv != nil && replace.Static != nil && len(rargs) == len(replace.Static.Params) && len(rargs) > 1 {
+				rargs = rargs[1:] // a static (not inlined) call lists the receiver among its arguments too
+			}
 			if len(rargs) != 1 || rargs[0].name() != val {
 				bad("C11-Q4", "Replace is not given the setter's argument", replace.Instr)
 				okAll = false
@@ -338,18 +341,9 @@ func c11Container(w *World, r *Recorder) {
 		if len(fn.TypeArgs()) == 0 {
 			continue
 		}
-		switch baseName(fn) {
-		case "validateAndConvert":
-			var src *ssa.Parameter
-			for _, prm := range fn.Params {
-				if sl, ok := prm.Type().Underlying().(*types.Slice); ok && types.IsInterface(sl.Elem()) {
-					src = prm
-				}
-			}
-			if src == nil {
-				r.Undecide("C11-Q6", fnKey(fn), w.FnPos(fn), "the converter has no component-list parameter")
-				continue
-			}
+		isConv, src := c11IsConverter(w, fn)
+		switch {
+		case isConv:
 			rep := validatingWalk(w, fn, func(s ssa.Value) bool { return s == ssa.Value(src) }, true)
 			pos := w.FnPos(fn)
 			if rep.Pos != nil {
@@ -360,8 +354,14 @@ func c11Container(w *World, r *Recorder) {
 				r.Check(!ef.Writes(), "C11-Q6", fnKey(fn)+"#pure", w.FnPos(fn), "the converter writes nothing its caller can see (it builds a fresh slice)",
 					"the converter writes memory reachable from its arguments while it is still validating: a later invalid element leaves the caller's data half-overwritten")
 			}
-		case "Replace", "Add":
+		case baseName(fn) == "Replace" || baseName(fn) == "Add":
 			if fn.Signature.Recv() == nil || !strings.Contains(fn.Signature.Recv().Type().String(), "SwComponents[") {
+				continue
+			}
+			if !c11CallsConverter(w, fn) {
+				// no separate converter: the validate-and-convert walk is written
+				// out in the method itself
+				c11InlineConvert(w, r, fn)
 				continue
 			}
 			s := w.Summarise(fn)
@@ -382,7 +382,7 @@ func c11Container(w *World, r *Recorder) {
 				otherStores := 0
 				for i := range p.St.events {
 					ev := p.St.events[i]
-					if ev.Kind == "call" && ev.Static != nil && baseName(ev.Static) == "validateAndConvert" {
+					if isC, _ := c11IsConverter(w, ev.Static); ev.Kind == "call" && ev.Static != nil && isC {
 						conv = &p.St.events[i]
 					}
 					if ev.Kind == "store" && strings.HasPrefix(ev.Loc, "P:"+recv) {
@@ -437,6 +437,128 @@ func c11Container(w *World, r *Recorder) {
 			r.Check(ok, "C11-Q6", fnKey(fn), w.FnPos(fn), "validate-all, then one store; nothing stored on failure", why)
 		}
 	}
+}
+
+// c11IsConverter: by role, not by name — an in-repo function (not a method of
+// the container) that takes a list of component interfaces and returns a list
+// plus an error. Whether it does its job is judged by the walk rule.
+func c11IsConverter(w *World, fn *ssa.Function) (bool, *ssa.Parameter) {
+	if fn == nil || fn.Blocks == nil || !w.InRepo(fn) || fn.Signature.Recv() != nil {
+		return false, nil
+	}
+	res := fn.Signature.Results()
+	if res.Len() != 2 || !types.Identical(res.At(1).Type(), types.Universe.Lookup("error").Type()) {
+		return false, nil
+	}
+	if _, ok := res.At(0).Type().Underlying().(*types.Slice); !ok {
+		return false, nil
+	}
+	for _, prm := range fn.Params {
+		if sl, ok := prm.Type().Underlying().(*types.Slice); ok && types.IsInterface(sl.Elem()) && strings.HasSuffix(sl.Elem().String(), "ISwComponent") {
+			return true, prm
+		}
+	}
+	return false, nil
+}
+
+func c11CallsConverter(w *World, fn *ssa.Function) bool {
+	for _, b := range fn.Blocks {
+		for _, in := range b.Instrs {
+			if c, ok := in.(ssa.CallInstruction); ok {
+				if isC, _ := c11IsConverter(w, c.Common().StaticCallee()); isC {
+					return true
+				}
+			}
+		}
+	}
+	return false
+}
+
+// c11InlineConvert: Add / Replace that validate and convert their argument in
+// their own body. Decided on the flow graph: (a) the walk over the argument is a
+// validating walk that copies every element, index for index, into a fresh
+// slice of the argument's length; (b) every store into the receiver lies after
+// the walk has finished (dominated by the loop's exit block), so a failing
+// element leaves the container untouched; (c) there is exactly one such store,
+// to the contents field, of that fresh slice (Replace) or of the old contents
+// with the fresh slice appended (Add); (d) nothing but the argument is walked.
+func c11InlineConvert(w *World, r *Recorder, fn *ssa.Function) {
+	key := fnKey(fn)
+	var src *ssa.Parameter
+	for _, prm := range fn.Params[1:] {
+		if sl, ok := prm.Type().Underlying().(*types.Slice); ok && types.IsInterface(sl.Elem()) {
+			src = prm
+		}
+	}
+	if src == nil {
+		r.Undecide("C11-Q6", key, w.FnPos(fn), "no component-list parameter")
+		return
+	}
+	rep := validatingWalkOpt(w, fn, func(s ssa.Value) bool { return s == ssa.Value(src) }, true, true)
+	if !rep.OK {
+		pos := w.FnPos(fn)
+		if rep.Pos != nil {
+			pos = w.InstrPos(rep.Pos)
+		}
+		r.Refute("C11-Q6", key, pos, "in-method convert-and-validate walk: "+rep.Why)
+		return
+	}
+	var loop *SliceLoop
+	for _, sl := range sliceLoops(fn) {
+		sl := sl
+		if sl.S == ssa.Value(src) {
+			loop = &sl
+		}
+	}
+	recv := fn.Params[0]
+	var stores []*ssa.Store
+	why := ""
+	for _, b := range fn.Blocks {
+		for _, in := range b.Instrs {
+			st, ok := in.(*ssa.Store)
+			if !ok {
+				continue
+			}
+			fa, ok := st.Addr.(*ssa.FieldAddr)
+			if !ok || fa.X != ssa.Value(recv) {
+				continue
+			}
+			if !loop.Done.Dominates(b) {
+				why = "the container is written before the walk over the new elements has finished (a later invalid element leaves it changed)"
+			}
+			if fieldName(fa.X.Type(), fa.Field) == "values" {
+				stores = append(stores, st)
+			}
+		}
+	}
+	if why == "" && len(stores) != 1 {
+		why = fmt.Sprintf("%d stores to the container's contents (want exactly one, after the walk)", len(stores))
+	}
+	if why == "" {
+		v := stores[0].Val
+		ms := rep.Fresh
+		switch baseName(fn) {
+		case "Replace":
+			if v != ms {
+				why = "Replace stores something other than the freshly converted list (must assign, not append)"
+			}
+		case "Add":
+			okAdd := false
+			if c, ok := v.(*ssa.Call); ok {
+				if b, isB := c.Call.Value.(*ssa.Builtin); isB && b.Name() == "append" && len(c.Call.Args) == 2 && c.Call.Args[1] == ms {
+					if ld, ok := c.Call.Args[0].(*ssa.UnOp); ok {
+						if fa, ok := ld.X.(*ssa.FieldAddr); ok && fa.X == ssa.Value(recv) && fieldName(fa.X.Type(), fa.Field) == "values" {
+							okAdd = true
+						}
+					}
+				}
+			}
+			if !okAdd {
+				why = "Add stores something other than the old contents followed by the freshly converted elements"
+			}
+		}
+	}
+	r.Check(why == "", "C11-Q6", key, w.FnPos(fn), "in-method walk validates and converts every new element into a fresh slice; the single store to the contents comes after the walk; nothing stored on failure", why)
 }
 
 // c11LazyPremises: nil and empty container are indistinguishable to every
